@@ -918,6 +918,58 @@ impl PcztSim {
                 Err(e) => return ctx.report(Violation::new("combine_keeps_every_field", format!("contributions of {honest_roles:?} were carried by the combined copies and the rest were added afterwards, yet extraction fails: {e}"))),
             }
         }
+        // ---- Constructor-stage copies: while the transaction is still modifiable, a copy to which a Constructor has
+        // added one more Sapling output combines with the earlier copy, in either order, to the later copy
+        if t.sapling && !t.earlier.is_empty() {
+            let made = (|| -> Option<(Pczt, Pczt)> {
+                let creator = Pczt::parse(&t.earlier[0]).ok()?;
+                let mut full = to_value(&creator).ok()?;
+                // the repository's Creator hands out non-modifiable copies (its Builder has placed every output); a foreign
+                // Constructor works on modifiable ones
+                let flags = field_mut(&mut full, &["global", "tx_modifiable"])?;
+                let f: i128 = match flags {
+                    ciborium::Value::Integer(i) => (*i).into(),
+                    _ => return None,
+                };
+                *flags = ciborium::Value::Integer(((f as u64) | 0x80).into());
+                let mut partial = full.clone();
+                let outs = field_mut(&mut partial, &["sapling", "outputs"])?;
+                let ciborium::Value::Array(a) = outs else { return None };
+                if a.len() < 2 {
+                    return None;
+                }
+                let mut removed = a.pop()?;
+                let v: i128 = match field_mut(&mut removed, &["value"])? {
+                    ciborium::Value::Integer(i) => (*i).into(),
+                    _ => return None,
+                };
+                let vs = field_mut(&mut partial, &["sapling", "value_sum"])?;
+                let cur: i128 = match vs {
+                    ciborium::Value::Integer(i) => (*i).into(),
+                    _ => return None,
+                };
+                *vs = ciborium::Value::Integer(i64::try_from(cur + v).ok()?.into());
+                Some((from_value(&partial).ok()?, from_value(&full).ok()?))
+            })();
+            if let Some((partial, full)) = made {
+                ctx.oracle("constructor_stage_copies_combine");
+                ctx.probe("constructor_stage_copies_combined");
+                let want = ser(&full)?;
+                for order in 0..2 {
+                    let (x, y) = if order == 0 { (partial.clone(), full.clone()) } else { (full.clone(), partial.clone()) };
+                    match catch(|| Combiner::new(vec![x, y]).combine()) {
+                        Err(m) => return ctx.report(Violation::new("no_panic", format!("Combiner panicked: {m}"))),
+                        Ok(Err(e)) => return ctx.report(Violation::new("honest_copies_combine", format!("a modifiable copy and the same copy with one more Sapling output do not combine (order {order}): {e:?}"))),
+                        Ok(Ok(c)) => {
+                            let got = ser(&c)?;
+                            if got != want {
+                                return ctx.report(Violation::new("combine_order_grouping_duplication", format!("combining a modifiable copy with the same copy carrying one more Sapling output (order {order}) does not give the later copy ({} vs {} bytes; implied txid {:?} vs {:?})", got.len(), want.len(), txid_of(&c).map(|t| hex::encode(&t[..6])), txid_of(&full).map(|t| hex::encode(&t[..6])))));
+                            }
+                        }
+                    }
+                }
+            }
+        }
         // ---- a copy that describes a different transaction must conflict
         if let Some(other) = &t.other_tx {
             ctx.oracle("conflicting_copies_refused");
@@ -1046,7 +1098,7 @@ impl Scenario for PcztSim {
         ]
     }
     fn expected_probes(&self) -> Vec<&'static str> {
-        vec!["v1_encoding_chosen", "v2_encoding_chosen", "extracted", "corrupted_message_merged", "pipeline_transparent", "pipeline_v5_sapling_orchard", "pipeline_v6_ironwood", "compacted_copy_resolved", "combination_includes_pre_finalizer_copy", "input_requires_height_lock"]
+        vec!["v1_encoding_chosen", "v2_encoding_chosen", "extracted", "corrupted_message_merged", "pipeline_transparent", "pipeline_v5_sapling_orchard", "pipeline_v6_ironwood", "compacted_copy_resolved", "combination_includes_pre_finalizer_copy", "input_requires_height_lock", "constructor_stage_copies_combined"]
     }
     fn fault_kinds(&self) -> Vec<&'static str> {
         vec!["msg_drop", "msg_dup", "msg_reorder", "msg_corrupt", "msg_truncate", "msg_delay_stale", "party_changes_field"]
